@@ -50,6 +50,7 @@ struct Outcome
     vf::Snapshot snap;
     bool fault_seen = false;
     long nonce = 0;
+    int kind = -1, dyn_kind = -1;  // kind recorded in the exception object / dynamic type that arrived
     bool in_init = false;
     std::string other;
 };
@@ -71,6 +72,8 @@ static Outcome run_once(Solver& eigs, Index n, const Args& a)
     {
         o.fault_seen = true;
         o.nonce = f.nonce;
+        o.kind = f.kind;
+        o.dyn_kind = f.dynamic_kind();
         o.in_init = !init_done;
     }
     catch (const std::runtime_error& e)
@@ -141,8 +144,10 @@ static void krylov_case(vf::Draw& d, vf::Case& c)
     a.start_seed = d.range("start_seed", 0, 255);
     bool second_fault = d.flag("second_fault");
     long second_k_draw = d.range("second_fault_pos_permille", 0, 999);
+    const int fkind = (int) d.range("fault_exception_type", 0, 3);
+    c.cls(std::string("fault_type:") + vf::FAULT_KIND_NAMES[fkind]);
     std::ostringstream os;
-    os << (a.start_kind ? "init(v)" : "init()") << " compute(" << vf::ALL_RULE_NAMES[a.sel] << ",maxit=" << a.maxit << ",tol=" << vf::num(a.tol) << ")";
+    os << "operator throws a " << vf::FAULT_KIND_NAMES[fkind] << "; " << (a.start_kind ? "init(v)" : "init()") << " compute(" << vf::ALL_RULE_NAMES[a.sel] << ",maxit=" << a.maxit << ",tol=" << vf::num(a.tol) << ")";
 
     // fault-free baseline
     Outcome base;
@@ -179,9 +184,11 @@ static void krylov_case(vf::Draw& d, vf::Case& c)
                 auto eigs = make();
                 op.fault_at = op.calls + k;  // constructor-time applications (none today) do not shift the position
                 op.fault_nonce = 1000 + k;
+                op.fault_kind = fkind;
                 Outcome o = run_once<S>(*eigs, n, a);
-                VF_CHECK(o.fault_seen, "fault_swallowed", "the operator threw at application " << k << " of " << N << " but no exception reached the caller (info=" << o.snap.info << ", what=" << o.snap.what << ")");
+                VF_CHECK(o.fault_seen, "fault_swallowed", "the operator threw (a " << vf::FAULT_KIND_NAMES[fkind] << ") at application " << k << " of " << N << " but no exception reached the caller (info=" << o.snap.info << ", what=" << o.snap.what << ")");
                 VF_CHECK(o.nonce == 1000 + k, "fault_altered", "the exception that reached the caller carries nonce " << o.nonce << ", thrown " << (1000 + k));
+                VF_CHECK(o.kind == fkind && o.dyn_kind == fkind, "fault_altered", "the operator threw a " << vf::FAULT_KIND_NAMES[fkind] << " but the exception that reached the caller has dynamic type #" << o.dyn_kind << " (a sliced or re-created copy)");
                 VF_CHECK(o.in_init == (k <= N_init), "fault_position", "fault " << k << " surfaced from " << (o.in_init ? "init" : "compute") << " but init makes " << N_init << " applications");
                 // optional second fault during the recovery run
                 if (second_fault && N >= 2)
@@ -231,6 +238,8 @@ static void geigs_case(vf::Draw& d, vf::Case& c)
     Mat Bs = ((B + B.transpose()) / 2).cast<Real>();
     Mat As = vf::Narrow<Real>::mat(R.A);
     bool fault_in_B = d.flag("fault_in_B");
+    const int fkind = (int) d.range("fault_exception_type", 0, 3);
+    c.cls(std::string("fault_type:") + vf::FAULT_KIND_NAMES[fkind]);
     Args a;
     a.sel = vf::SYM_RULES[d.range("selection", 0, 4)];
     a.sort = vf::SYM_SORT_RULES[d.range("sorting", 0, 3)];
@@ -239,7 +248,7 @@ static void geigs_case(vf::Draw& d, vf::Case& c)
     a.start_kind = (int) d.range("start_kind", 0, 1);
     a.start_seed = d.range("start_seed", 0, 255);
     std::ostringstream os;
-    os << "SymGEigsSolver<RegularInverse> class=" << R.name << " n=" << n << " nev=" << nev << " ncv=" << ncv << " fault in " << (fault_in_B ? "B operator" : "A operator") << " compute(" << vf::ALL_RULE_NAMES[a.sel] << ",maxit=" << a.maxit << ")";
+    os << "SymGEigsSolver<RegularInverse> class=" << R.name << " n=" << n << " nev=" << nev << " ncv=" << ncv << " fault (" << vf::FAULT_KIND_NAMES[fkind] << ") in " << (fault_in_B ? "B operator" : "A operator") << " compute(" << vf::ALL_RULE_NAMES[a.sel] << ",maxit=" << a.maxit << ")";
     c.cls("SymGEigsSolver<RegularInverse>");
     c.cls(fault_in_B ? "fault_in_B_operator" : "fault_in_A_operator(generalized)");
     if (vf::fro_scaled(R.A) == 0)
@@ -278,8 +287,10 @@ static void geigs_case(vf::Draw& d, vf::Case& c)
             Solver eigs(aop, bop, nev, ncv);
             vf::OpCounters& target = fault_in_B ? static_cast<vf::OpCounters&>(bop) : static_cast<vf::OpCounters&>(aop);
             target.fault_at = target.calls + k;
-            target.fault_nonce = 1000 + k;
+ target.fault_nonce = 1000 + k;
+            target.fault_kind = fkind;
             Outcome o = run_once<Real>(eigs, n, a);
+            VF_CHECK(!o.fault_seen || (o.kind == fkind && o.dyn_kind == fkind), "fault_altered", "the operator threw a " << vf::FAULT_KIND_NAMES[fkind] << " but the exception that reached the caller has dynamic type #" << o.dyn_kind);
             VF_CHECK(o.fault_seen && o.nonce == 1000 + k, "fault_swallowed", "fault at application " << k << " of " << N << " of the " << (fault_in_B ? "B" : "A") << " operator did not propagate unchanged");
             target.fault_at = -1;
             Outcome rec = run_once<Real>(eigs, n, a);
